@@ -1,6 +1,7 @@
 package main
 
 import (
+	"github.com/alowayed/go-univers/pkg/spec/vers"
 	"fmt"
 	"sync"
 )
@@ -213,6 +214,55 @@ func checkC19(ctx *Ctx) {
 		dist[e.Name] = map[string]int{"queries": len(qs), "shared_versions": len(p.Vals), "shared_ranges": len(rvals), "goroutines": G}
 		if len(qs) > 0 {
 			res.sample(map[string]any{"eco": e.Name, "query": qs[len(qs)/2].kind, "answer": seq[len(qs)/2]})
+		}
+	}
+	// repeated calls return the same results, error values included: the same failing call is made
+	// thirty times (map iteration order, pooled buffers and time stamps show as a text that
+	// varies).  Malformed VERS ranges of every class, with every proper prefix and one-byte
+	// extension of every scheme name, and rejected versions and ranges of every ecosystem.
+	{
+		r := NewRNG(ctx.Seed, "C19/errors")
+		var failing []func() string
+		var descr []string
+		addVers := func(rng, probe string) {
+			failing = append(failing, func() string {
+				_, err := vers.Contains(rng, probe)
+				if err == nil {
+					return "<nil>"
+				}
+				return err.Error()
+			})
+			descr = append(descr, fmt.Sprintf("vers.Contains(%q, %q)", rng, probe))
+		}
+		for _, sch := range schemeNames {
+			for k := 1; k < len(sch); k++ {
+				addVers("vers:"+sch[:k]+"/>=1.0.0", "1.0.0")
+			}
+			addVers("vers:"+sch+"x/>=1.0.0", "1.0.0")
+			addVers("vers:"+sch+"/>=!!bad!!", "1.0.0")
+			addVers("vers:"+sch+"/>=1.0.0|<", "1.0.0")
+			addVers("vers:"+sch+"/>=1.0.0", "!!bad!!")
+			addVers("vers:"+sch+"/*|>=1", "1.0.0")
+		}
+		for _, e := range allEcos {
+			e := e
+			for _, bad := range []string{"!!bad!!", "", "1..2", ">=", "^^1", r.Pick([]string{"1.0.0-", "v", "[1,", "~>"})} {
+				bad := bad
+				failing = append(failing, func() string { p := e.Parse(bad); return fmt.Sprint(p.OK, p.Err) })
+				descr = append(descr, e.Name+".NewVersion("+fmt.Sprintf("%q", bad)+")")
+				failing = append(failing, func() string { p := e.ParseRange(bad); return fmt.Sprint(p.OK, p.Err) })
+				descr = append(descr, e.Name+".NewVersionRange("+fmt.Sprintf("%q", bad)+")")
+			}
+		}
+		for i, f := range failing {
+			first := f()
+			for k := 0; k < 30; k++ {
+				res.Evaluations++
+				if got := f(); got != first {
+					res.violateKey(Violation{Eco: "-", Kind: "repeated-call-differs", Input: descr[i], Expected: first + " (the result of the first call)", Actual: got}, "error-text")
+					break
+				}
+			}
 		}
 	}
 	res.DistinctNontrivial = nontrivial
